@@ -83,7 +83,10 @@ RefusedStep(P, a, ln) ==
 \* a request that is not authentic must leave no trace even if the code let it through
 NotAuthentic(a, r, ln) == (a.alter \notin SameSig /\ ~Refused(r)) => Unchanged(ln)
 
-Accepted1(P, a) == [AuthF(P, a, TRUE).st EXCEPT !.burn = Put(P.burn, a.ident, {})]
+\* the stored nonce only moves forward (racing requests of one identity may be accepted out of order)
+Accepted1(P, a) ==
+    LET n == IF Has(P.nonce, a.ident) /\ P.nonce[a.ident] > a.nonce THEN P.nonce[a.ident] ELSE a.nonce IN
+    [P EXCEPT !.nonce = Put(P.nonce, a.ident, n), !.burn = Put(P.burn, a.ident, {})]
 
 -----------------------------------------------------------------------------
 ConnectStep(ln, a0) ==
@@ -226,11 +229,25 @@ AccountStep(ln) ==
 (* state, and what is the next state), and the burst is accepted iff some      *)
 (* one-at-a-time order of the requests explains all replies, all instructions  *)
 (* sent to agents and the final state.                                         *)
+\* (an endpoint is "check and save the nonce", then its effect: two steps.  Racing requests of one
+\*  identity may therefore have their nonce steps and their effects in different orders; the nonce
+\*  decisions of a burst are judged together by BurstAuthOK, the order search explains the effects)
 EvRefused(P, a, r) ==
-    [ok |-> ~MustAccept(P, a) /\ (a.alter \in SameSig => NonceDecisionOK(P, a.ident, a.nonce, FALSE)),
+    [ok |-> TRUE,
      st |-> [P EXCEPT !.burn = Put(P.burn, a.ident, Get(P.burn, a.ident, {}) \cup {a.nonce})], calls |-> {}]
 
-AuthGood(P, a) == a.alter \in SameSig /\ NonceDecisionOK(P, a.ident, a.nonce, TRUE)
+AuthGood(P, a) == TRUE
+
+BurstAuthOK(pre, reqs, rs) ==
+    \A i \in DOMAIN reqs :
+       LET a == reqs[i] IN
+       ("alter" \in DOMAIN a) =>
+          IF a.alter \notin SameSig THEN Refused(rs[i])
+          ELSE IF ~Refused(rs[i])
+               THEN NonceHigher(pre, a.ident, a.nonce) /\ ~NonceMustStale(pre, a.nonce)
+               ELSE \/ ~MustAccept(pre, a)
+                    \/ \E j \in DOMAIN reqs : j # i /\ "alter" \in DOMAIN reqs[j] /\ reqs[j].ident = a.ident
+                                               /\ ~Refused(rs[j]) /\ reqs[j].nonce >= a.nonce
 
 EvUpdate(P, a0, r, fin) ==
     LET a == [a0 EXCEPT !.peers = ToSet(a0.peers)]  P1 == Accepted1(P, a) IN
@@ -350,6 +367,7 @@ BurstStep(ln) ==
     /\ ln.op = "Burst"
     /\ A("nonce", "racing copies of one request were honoured more than once", BurstNonceOK(reqs, rs))
     /\ A("withdraw", "racing withdrawals paid more than the wallet held", F("serial") \/ BurstPaidOK(S, ln))
+    /\ A("serial", "nonce decisions of the burst", BurstAuthOK(S, reqs, rs))
     /\ IF F("serial")
        THEN \E order \in Orders(n) :
                LET run == RunSerial(S, reqs, rs, order, 1, allcalls, ln.st) IN
